@@ -6190,19 +6190,6 @@ impl QueryRouter {
 
         // Check for FROM clause (standard SQL syntax)
         if let Some(from_pos) = upper.find(" FROM ") {
-            // Standard syntax is what the statement parser understands, including what the
-            // textual splitting below gets wrong (parentheses, AND/OR precedence, `<>`,
-            // keywords and quotes inside string literals). Only statements the parser
-            // rejects are left to the splitter.
-            if parser::parse(command).is_ok() {
-                match self.execute_parsed(command) {
-                    // e.g. `c = -inf`: the splitter reads such literals with str::parse,
-                    // the statement path has no literal for them
-                    Err(RouterError::ParseError(_)) => {},
-                    other => return other,
-                }
-            }
-
             let rest_after_from = &command[from_pos + 6..];
 
             // Find table name (until WHERE, LIMIT, or end)
